@@ -70,6 +70,8 @@ def gen(r, tier, i):
         gen = {'at': r.choice([0.0, 1.0, 2.0]), 'n': r.randint(1, 2), 'flow': r.choice(['none', 'none', 'chain']),
                # a flow step without dependencies deletes the generated compartment again in a later step phase
                'kill_after': r.choice([None, None, 1.0, 2.0])}
+        # ... and later the same compartment (same key, same step names) is generated a second time
+        gen['regen'] = gen['kill_after'] is not None and r.random() < 0.6
     # legacy style: some flow steps are listed under processes (their flow entries stay in the flow)
     legacy = [k for k in range(n) if i >= len(_ENUM) * 4 and r.random() < 0.2]
     return {'gen': gen, 'legacy': legacy, 'deps': deps, 'comp': comp, 'order': order, 'nder': nder,
@@ -118,7 +120,11 @@ def run(spec):
 
             def next_update(self, timestep, states):
                 upd = {'clk': timestep}
-                if states['clk'] == gen['at'] and 'g' not in states['cells']:
+                again = gen.get('regen') and not getattr(self, 'again', False) and 'g' not in states['cells'] and \
+                    states['clk'] >= gen['at'] + 2.0 + (gen.get('kill_after') or 0)
+                if again:
+                    self.again = True
+                if (states['clk'] == gen['at'] or again) and 'g' not in states['cells']:
                     names = ['g%d' % k for k in range(gen['n'])]
                     gsteps = {nm: LedgerStep({'sid': nm}) for nm in names}
                     gflow = {} if gen['flow'] == 'none' else {nm: ([(names[k - 1],)] if k else []) for k, nm in enumerate(names)}
@@ -138,7 +144,9 @@ def run(spec):
                             'log': {'_default': [], '_updater': 'v_append'}}
 
                 def next_update(self, timestep, states):
-                    if 'g' in states['cells'] and states['clk'] >= gen['at'] + 1.0 + gen['kill_after']:
+                    if 'g' in states['cells'] and states['clk'] >= gen['at'] + 1.0 + gen['kill_after'] and \
+                            not getattr(self, 'done', False):
+                        self.done = True
                         return {'cells': {'_delete': ['g']}, 'log': [('kill', 0, 0, 0)]}
                     return {}
             steps['kill'] = Kill({})
@@ -200,14 +208,16 @@ def run(spec):
             generated = False
             names = [nm for nm in names if nm not in gen_names]
             inv = [ev for ev in inv if ev[2][0] not in gen_names]
-        elif killed:
+        elif killed and not any(ev[0] == 'apply' and ev[1][0] == 'gen' for ev in ph):
             V.check('runtime_steps_run', not any(g in names for g in gen_names),
                     lambda: ('steps of a deleted compartment ran again', names))
-        if gen and not generated and not killed:
+        if gen and not generated:
             # the batch that applied the generating update (its marker token) is followed by a phase in
-            # which the new steps already exist
-            if any(ev[0] == 'apply' and ev[1][0] == 'gen' for ev in ph):
+            # which the new steps already exist (also when the compartment is generated a second time)
+            if any(ev[0] == 'apply' and ev[1][0] == 'gen' for ev in ph) and \
+                    not any(ev[0] == 'apply' and ev[1][0] == 'kill' for ev in ph):
                 generated = True
+                killed = False
         if generated:
             V.check('runtime_steps_run', all(names.count(g) == 1 for g in gen_names),
                     lambda: ('steps generated at run time must run exactly once in every later phase', names, gen_names))
